@@ -52,6 +52,13 @@ def scenarios(tier):
                                                 threads=[[bf('d/a')], [q('list_dir', 'u'), q('read', 'i'), q('walk', 'u')]]),
         'S7_cached_subtree_beside_rebuild': dict(prep=[sb('s', [bf('d/a')]), bf('d/b')], prep_mut=[['del', 'd/b']],
                                                  threads=[[sb('s', [bf('d/a')])], [bf('d/b')]]),
+        # both records are valid: the two reuse paths take the cache's locks at the same time
+        'S7b_cached_subbuild_beside_cached_file': dict(t0=[['w', 'i', 'A']],
+                                                       prep=[sb('s', [q('read', 'i'), bf('d/a')]), bf('e/b', ch=[sb('t', args=(2,))])],
+                                                       threads=[[sb('s', [q('read', 'i'), bf('d/a')])], [bf('e/b', ch=[sb('t', args=(2,))])]]),
+        'S7c_cached_plain_subbuild_beside_cached_plain_file': dict(t0=[['w', 'i', 'A']],
+                                                                   prep=[sb('s', [q('read', 'i')]), bf('e/b')],
+                                                                   threads=[[sb('s', [q('read', 'i')])], [bf('e/b')]]),
         'S8_concurrent_hash_reads': dict(t0=[['w', 'i', 'A']],
                                          threads=[[sb('r1', [q('readh', 'i')])], [sb('r2', [q('readh', 'i')], args=(2,))]]),
         'S9_threads_inside_a_subbuild': dict(threads=[[dict(sb('par'), par=[[bf('d/a')], [bf('d/b', 'ra')]])], [bf('e/c')]]),
